@@ -250,3 +250,61 @@ if __name__ == "__main__":
     for m, qual, fn, n, var, ok in ss:
         if not ok:
             print(f"  {m.name}:{qual}@{n.lineno}: {ast.unparse(n)}")
+
+
+def _reserved_keyword_obligations(repo_root):
+    """The data-side rules treat the parameters `context` and `environment` of a filter as engine objects. That holds because a
+    template cannot supply them: Filter.evaluate / evaluate_async refuse (LiquidTypeError) a keyword argument whose name is one
+    the engine injects (the keywords of the functools.partial that RenderContext.filter returns), before the filter is called."""
+    repo = Repo(repo_root)
+    obs = []
+    m = repo.module("liquid2.builtin.expressions")
+    for name in ("evaluate", "evaluate_async"):
+        fn = m.find(f"Filter.{name}") if m else None
+        ok = False
+        if fn is not None:
+            body = [n for n in ast.walk(fn)]
+            calls = [n for n in body if isinstance(n, ast.Call)]
+            chk = [c for c in calls if ast.unparse(c.func) == "self._check_reserved_keywords" and [ast.unparse(a) for a in c.args] == ["func", "keyword_args"]]
+            app = [c for c in calls if ast.unparse(c.func) == "func" and any(k.arg is None and ast.unparse(k.value) == "keyword_args" for k in c.keywords)]
+            ok = len(chk) == 1 and len(app) == 1 and chk[0].lineno < app[0].lineno and not any(
+                isinstance(g, (ast.If, ast.Try)) and any(x is chk[0] for x in ast.walk(g)) for g in body if g is not fn)
+        obs.append({"oid": f"liquid2.builtin.expressions:Filter.{name}/site.injected-keywords-not-from-template", "status": "unsat" if ok else "sat", "backend": "site",
+                    "note": "the template's keyword arguments are checked against the injected ones (unconditionally) before the filter is called" if ok
+                    else "the filter is called with the template's keyword arguments without the reserved-name check: `context:` / `environment:` written in a template replace the injected objects, whose attributes and methods are then those of a data object"})
+    fn = m.find("Filter._check_reserved_keywords") if m else None
+    ok = False
+    if fn is not None:
+        src = ast.unparse(fn)
+        ok = "isinstance(func, partial)" in src and "injected = func.keywords" in src and "raise LiquidTypeError" in src and any(
+            isinstance(n, ast.Compare) and isinstance(n.ops[0], ast.In) and ast.unparse(n.comparators[0]) == "injected" for n in ast.walk(fn))
+    obs.append({"oid": "liquid2.builtin.expressions:Filter._check_reserved_keywords/site.raises-for-injected-name", "status": "unsat" if ok else "sat", "backend": "site",
+                "note": "raises LiquidTypeError for any template keyword that is a keyword of the injected partial" if ok else "the reserved-name check does not compare the template's keywords with the injected ones"})
+    return obs
+
+
+def _datetime_format_obligation(repo_root):
+    """babel's format_datetime() calls .replace() on its `format` argument: the datetime filter hands it a value from the template
+    (the `format:` keyword argument) only after testing that it is a string."""
+    repo = Repo(repo_root)
+    m = repo.module("liquid2.builtin.filters.babel")
+    fn = m.find("DateTime.__call__") if m else None
+    ok = False
+    if fn is not None:
+        tests = [g for g in ast.walk(fn) if isinstance(g, ast.If) and any(
+            isinstance(c, ast.Call) and isinstance(c.func, ast.Name) and c.func.id == "isinstance" and len(c.args) == 2 and ast.unparse(c.args[0]) == "format" and ast.unparse(c.args[1]) == "str"
+            for c in ast.walk(g.test))]
+        ok = any(isinstance(g.test, ast.UnaryOp) and any(isinstance(x, ast.Raise) for st in g.body for x in ast.walk(st)) for g in tests)
+    return [{"oid": "liquid2.builtin.filters.babel:DateTime.__call__/site.format-argument-is-a-string", "status": "unsat" if ok else "sat", "backend": "site",
+             "note": "`format` is rejected (LiquidTypeError) unless isinstance(format, str)" if ok
+             else "the `format:` argument reaches babel untested: a number fails with AttributeError, a data object has its .replace() called and the result used as the pattern"}]
+
+
+@register("C05")
+def c05_reserved_keywords(repo_root, tier):
+    return {"obligations": _reserved_keyword_obligations(repo_root) + _datetime_format_obligation(repo_root), "samples": [], "trusted": [], "functions": [], "assumptions": []}
+
+
+@register("C02")
+def c02_reserved_keywords(repo_root, tier):
+    return {"obligations": _reserved_keyword_obligations(repo_root) + _datetime_format_obligation(repo_root), "samples": [], "trusted": [], "functions": [], "assumptions": []}
